@@ -1033,4 +1033,11 @@ end
 /-- the default fuel of the embedded expression parser -/
 def exprFuel (items : List Item) : Nat := Parser.fuelFor items.length
 
+/-- `parse.SoyFile(name, input)`: the lexer model composed with the parser model -/
+def parseSource (pf : Bytes → Option UInt64) (input : Bytes) : Except FErr (List Node) :=
+  match Lex.lexAll input false with
+  | .items is => parseFile pf (exprFuel is) is
+  | .panic => .error .panic
+  | .fuelOut => .error .fuelOut
+
 end SoyVerif.Model.FileParser
